@@ -17,7 +17,7 @@ from simkit.core import HarnessError
 
 PROP = "C32"
 LEVEL = "fault_enumeration"
-TIERS = {"quick": dict(runs=64, wall=1400, chunk=1), "thorough": dict(runs=400, wall=5400, chunk=1)}
+TIERS = {"quick": dict(runs=80, wall=1400, chunk=1), "thorough": dict(runs=400, wall=5400, chunk=1)}
 TIME_UNIT = "tampered archives parsed (no clock in the code under test)"
 RULE = ("one evaluation = one v1-signed APK with exactly one stored byte altered in the .SF entry or in the signature value / "
         "signed attributes / signer id of its PKCS#7 block, archive rewritten, then APK(raw).get_certificate_der(block); the "
@@ -419,11 +419,15 @@ def worker(seed):
     k = r.random()
     if k < 0.2:                    # the few blocks with signed attributes would otherwise rarely be drawn
         cands = [c for c in cands if "signed-attrs" in c[0]] or cands
-    elif k < 0.45:                 # archives with several signature blocks / mixed key types (corpus/apksig-gen, see gen/mk_v1_apks.py)
-        cands = [c for c in cands if c[0].startswith("gen-")] or cands
-    elif k < 0.53:                 # forged blocks (certificate swapped for one with the same issuer and serial, other key)
+    elif k < 0.48:                 # generated archives (corpus/apksig-gen, see gen/mk_v1_apks.py): first a KIND of archive
+        gen = [c for c in cands if c[0].startswith("gen-") and "forged" not in c[0]]      # (several signers, Ed25519, embedded
+        kinds = sorted({"-".join(c[0].split("-")[1:3]) for c in gen})                      # content, dotted names, ...), then
+        if kinds:                                                                          # one archive of that kind
+            kind = r.choice(kinds)
+            cands = [c for c in gen if "-".join(c[0].split("-")[1:3]) == kind]
+    elif k < 0.56:                 # forged blocks (certificate swapped for one with the same issuer and serial, other key)
         cands = [c for c in cands if "forged" in c[0]] or cands
-    elif k < 0.60:                 # apksig's own negative samples: blocks that must not yield a certificate at all
+    elif k < 0.62:                 # apksig's own negative samples: blocks that must not yield a certificate at all
         cands = [c for c in cands if "wrong-" in c[0] or "missing-digest" in c[0]] or cands
     apk_name, sigs = r.choice(cands)
     sig_name = r.choice(sigs)
